@@ -204,6 +204,9 @@ def judge05 (p : Parsed) (log : List Eff) : String :=
       | some (.panic (.err (.res c m))), some pl
       | some (.error (.res c m)), some pl => if errOf pl = some (c, m) then "?ok" else "?viol:error-not-verbatim"
       | some (.panic _), some pl => if (errOf pl).map (·.1) = some Req.codeInternal then "?ok" else "?viol:panic-not-internal-error"
+      | some (.access g c), some pl =>
+        -- an access handler that grants something (get, or some call methods) is answered with that result
+        if kind = "access" ∧ (g ∨ !c.isEmpty) ∧ (errOf pl).isSome then "?viol:granted-access-answered-with-an-error" else "?ok"
       | _, none => "?viol:no-response"
       | _, _ => "?ok"
 
